@@ -282,7 +282,7 @@ def load_known():
 
 def match_known(known, prop, sig):
     for k in known:
-        if k.get("property") == prop and (k["signature"] == sig or (k.get("prefix") and sig.startswith(k["signature"]))):
+        if k.get("property") == prop and (k["signature"] == sig or (k.get("prefix") and sig.startswith(k["signature"])) or (k.get("suffix") and sig.endswith(k["signature"]))):
             return k
     return None
 
